@@ -34,6 +34,7 @@ INPUTS = {
     # the same model twice with its keys in a different order (equal as a dict, same index in its own registry)
     "permA": [{"b": 1, "a": "x", "c": 1.5, "sub": {"z": 1, "y": "s"}}],
     "permB": [{"a": "x", "c": 1.5, "b": 1, "sub": {"y": "s", "z": 1}}],
+    "headers": [{"url": "u", "headers": {"accept": "a", "host": "h"}, "n": "1"}, {"url": "v", "headers": {"accept": "b", "agent": "c"}, "n": "2"}],
     "literal": [{"kind": "a", "st": "x", "sub": {"mode": "on"}}, {"kind": "b", "st": "y", "sub": {"mode": "off"}}, {"kind": "c", "st": "x", "sub": {"mode": "on"}}],
 }
 
@@ -70,12 +71,17 @@ EVENTS = {
     "G_permA_dc": ("G", "permA", "dataclasses", "flat", {}, "explicit"),
     "G_permB_dc": ("G", "permB", "dataclasses", "flat", {}, "explicit"),
     "G_permB_pyd_nested": ("G", "permB", "pydantic", "nested", {}, "explicit"),
+    "G_pseudo_pyd_style_noactual_int": ("G", "pseudo", "pydantic", "flat", {"types_style": "noactual_int"}, "explicit"),
+    "G_headers_dkf": ("G", "headers", "pydantic", "flat", {"dkf": ["headers"]}, "explicit"),
+    "G_headers_dkr": ("G", "headers", "dataclasses", "flat", {"dkr": ["^a.*", "^h.*"]}, "explicit"),
+    "G_headers_plain": ("G", "headers", "pydantic", "flat", {}, "explicit"),
     "X_tree_nested": ("X", "tree", "nested", None),
     "X_r1_flat": ("X", None, "flat", "r1"),
 }
 QUICK_EVENTS = ["G_reserved_pyd", "G_reserved_base", "G_pseudo_base_conv", "G_pseudo_attrs_conv", "G_pseudo_base_defaultreg", "G_literal_dc", "G_literal_dc_style_nolit", "G_pseudo_pyd", "G_pseudo_pyd_style_noactual", "G_shared_flat", "X_shared_nested",
                 "G_tree_pyd", "G_pseudo_attrs_nested_dt", "G_literal_dc_conv_ml0", "G_nonascii_pyd_nouni", "G_nonascii_attrs_uni", "B_r1", "B_r2",
                 "R_r1_pyd_flat", "R_r1_attrs_nested", "R_r2_pyd_flat", "R_r2_base_nested", "X_tree_nested", "X_r1_flat",
+                "G_pseudo_pyd_style_noactual_int", "G_headers_dkf", "G_headers_dkr", "G_headers_plain",
                 "B_r3", "R_r3_pyd_flat", "R_r3_dc_flat", "R_r3_base_nested", "G_permA_dc", "G_permB_dc", "G_permB_pyd_nested"]
 
 SHARED = {}       # registry name -> Built (state of THIS process; inherited by forked children)
@@ -100,15 +106,20 @@ def _boom_generator():
     return BoomGen
 
 
-def _build(inp, regkind="explicit", unicode=True):
+def _build(inp, regkind="explicit", unicode=True, dkf=None, dkr=None):
     import copy
     samples = copy.deepcopy(INPUTS[inp])
+    opts = {}
+    if dkf is not None:
+        opts["dict_keys_fields"] = list(dkf)
+    if dkr is not None:
+        opts["dict_keys_regex"] = list(dkr)
     if regkind == "default_registry":
-        gen = MetadataGenerator()   # the process-global default string registry
+        gen = MetadataGenerator(**opts)   # the process-global default string registry
     elif regkind == "explicit_datetime":
-        gen = MetadataGenerator(str_types_registry=pipeline.make_str_registry(pipeline.ALL_TYPES))
+        gen = MetadataGenerator(str_types_registry=pipeline.make_str_registry(pipeline.ALL_TYPES), **opts)
     else:
-        gen = MetadataGenerator(str_types_registry=pipeline.make_str_registry())
+        gen = MetadataGenerator(str_types_registry=pipeline.make_str_registry(), **opts)
     reg = ModelRegistry()
     reg.process_meta_data(gen.generate(*samples), model_name="Root")
     reg.merge_models(gen)
@@ -122,6 +133,10 @@ def _render(reg, fw, layout, kw):
     if style == "nolit":
         from json_to_models.dynamic_typing import StringLiteral
         kw["types_style"] = {StringLiteral: {StringLiteral.TypeStyle.use_literals: False}}
+    elif style == "noactual_int":
+        # a style that holds the wildcard entry (the generator's own default) AND a more specific one
+        from json_to_models.dynamic_typing import IntString, StringSerializable
+        kw["types_style"] = {IntString: {StringSerializable.TypeStyle.use_actual_type: False}}
     elif style == "noactual":
         from json_to_models.dynamic_typing import StringSerializable
         kw["types_style"] = {StringSerializable: {StringSerializable.TypeStyle.use_actual_type: False}}
@@ -134,7 +149,8 @@ def do_event(ev):
     try:
         if spec[0] == "G":
             _, inp, fw, layout, kw, regkind = spec
-            return _render(_build(inp, regkind), fw, layout, kw)
+            kw = dict(kw)
+            return _render(_build(inp, regkind, dkf=kw.pop("dkf", None), dkr=kw.pop("dkr", None)), fw, layout, kw)
         if spec[0] == "B":
             _, r, inp = spec
             SHARED[r] = _build(inp)
